@@ -230,7 +230,7 @@ def bad_event(F, b, ev, seed):
         what += "import of the object's own export (%s path): %s; text %s" % (b["kind"], short(p, 200), short(ev.get("txt"), 160))
     elif b["kind"] == "specification-round-trip":
         # the text is the text of the members, but the format cannot carry these members: reading the text gives another object
-        key = "recorded:%s:not-representable" % b.get("ty")
+        key = "recorded:%s:field-contains-delimiter" % b.get("ty")
         what += ("the library made and exported an object that cannot be imported again (also by the specification's parser: a field "
                  "contains the delimiter); import of the exported text: %s; text %s" % (short(ev.get("imp"), 120), short(ev.get("txt"), 160)))
     else:
